@@ -67,7 +67,10 @@ class PC(GL_book_model):
         # Add a decorative equation: Government Fiscal Balance
         # = Primary Balance - Interest expense + Central Bank Dividend (= interest
         # received by the central bank).
-        tre.AddVariable('FISCBAL', 'Fiscal Balance', 'PRIM_BAL - INTDEP + CB__INTDEP')
+        # Refer to the central bank's interest income through the sector object, so that the name is also
+        # right when this country is embedded in a multi-country model (where full codes gain a prefix).
+        cb.AddVariable('INTDEP', 'Interest received on deposits', '')
+        tre.AddVariable('FISCBAL', 'Fiscal Balance', 'PRIM_BAL - INTDEP + ' + cb.GetVariableName('INTDEP'))
 
         if self.UseBookExogenous:
             # Need to set the exogenous variable - Government demand for Goods ("G" in economist symbology)
